@@ -30,14 +30,15 @@ CHECKS = {
    ref="DESIGN.md §5 C04",
    note="Holds on /repo after fix commit d029e07 (zero-residual pivot). Rounding budgeted as for C03."),
  "C05": dict(
-   cat="proof", technique="Lean 4 theorems for every residual system (counting/coincidence arguments over the masked greedy run) + bit-exact differential of the mask functions",
-   text="predetermined_split, maxN_count_le, exactN_count_eq hold for every residual system, region, N and feasible s (no bound), with concrete "
+   cat="proof", technique="Lean 4 theorems for every residual system (counting/coincidence arguments over the masked greedy run) + compiler from the Python source of the three mask functions to Lean functions, each proved equal to the model's masks on every run + bit-exact differential of the mask functions",
+   text="harness/translate_normcalc.py compiles max_n / exact_n / predetermined of _norm_calc.py statement by statement (assignments, +=, in-place zeroing, if/else, the counting loop as a fold, np.isin / slices / masks; keyword presence decided from GQR.fit's call) into Generated/NormCalcDefs.lean; "
+        "normcalc_max_n / _exact_n / _predetermined (the compiled function = the candidate-wise model, for all inputs in the functions' domain; the loop by the invariant lemma maxN_loop) and mask_<option> (= GqrCfg.mask, the object of the theorems) are re-checked by lake. predetermined_split, maxN_count_le, exactN_count_eq hold for every residual system, region, N and feasible s (no bound), with concrete "
         "non-vacuity instances; the three mask functions are compared bit for bit with the Lean masks and real GQR / SSPOR(GQR) runs are replayed.",
    ref="DESIGN.md §5 C05",
-   note="Hypothesis GqrSetup.hA (the supplied ranking's first N entries are the model's own unconstrained picks) excludes inputs where LAPACK broke an exact tie differently: that input class is a listed known finding."),
+   note="The compiler's reading of the numpy fragment (Model/NpLite.lean: isin, boolean selection, slices, zeroing as a zero pattern) is trusted and exercised by the bit-exact differential. Hypothesis GqrSetup.hA (the supplied ranking's first N entries are the model's own unconstrained picks) excludes inputs where LAPACK broke an exact tie differently: that input class is a listed known finding."),
  "C06": dict(
-   cat="proof", technique="Lean 4 theorems (own-class maximality, inactive constraint = QR, allowance 0 = CCQR with prohibitive cost) + replay of real GQR traces",
-   text="gqr_own_class_max, gqr_inactive_eq_qr, gqr_s0_eq_ccqr_prohibitive for every residual system and option; own-class maximality and the two "
+   cat="proof", technique="Lean 4 theorems (own-class maximality, inactive constraint = QR, allowance 0 = CCQR with prohibitive cost) + mask functions recompiled from the source and proved equal to the model's masks + replay of real GQR traces",
+   text="gqr_own_class_max, gqr_inactive_eq_qr, gqr_s0_eq_ccqr_prohibitive for every residual system and option (about GqrCfg.mask, which the regenerated theorems mask_max_n / mask_exact_n / mask_predetermined of C05's compiler tie to the current source of _norm_calc.py on every run); own-class maximality and the two "
         "reductions are judged on real runs along the exact model.",
    ref="DESIGN.md §5 C06",
    note="Reductions are compared on real runs only where every exact greedy choice is unique by more than the budget."),
